@@ -50,24 +50,27 @@ def correspondence_name(prop):
 
 def theorems(prop):
     return [
+        "Iauthd.Log.ciEq_eq_strcasecmp",
         "Iauthd.Log.sevset_spec",
         "Iauthd.Log.applyOp_spec",
         "Iauthd.Log.parseKey_spec",
         "Iauthd.Log.wf_rescan",
         "Iauthd.Log.refcnt_spec",
+        "Iauthd.Log.open_iff_referenced",
         "Iauthd.Log.C18_route",
         "Iauthd.Log.C18_route_exact",
         "Iauthd.Log.rescan_history_free",
         "Iauthd.Log.rescan_history_free_exact",
-        "Iauthd.Log.open_iff_referenced",
         "Iauthd.Log.line_complete",
         "Iauthd.Log.rescanR_state",
         "Iauthd.Log.rescanR_alive_of_openable",
         "Iauthd.Log.console_silent",
         "Iauthd.Log.load_routing",
+        "Iauthd.Log.sound_of_reach",
         "Iauthd.Log.alias_same_section_witness",
         "Iauthd.Log.alias_history_witness",
         "Iauthd.Properties.C18",
+        "Iauthd.Properties.C18_exact",
         "Iauthd.Properties.C18_reload",
         "Iauthd.Properties.C18_lines",
     ]
@@ -410,7 +413,7 @@ def enum_case(name, sec):
 def gen_cases(prop, tier, seed):
     rng = core.rng_for(seed, "logeng")
     cases = []
-    n_valid, n_malf, n_alias = (150, 60, 12) if tier == "quick" else (14000, 5000, 1000)
+    n_valid, n_malf, n_alias = (150, 60, 12) if tier == "quick" else (35000, 12000, 3000)
     for i in range(n_valid):
         cases.append(random_case(rng, "valid/%d" % i, FILES, 0.03, "valid"))
     for i in range(n_malf):
